@@ -129,7 +129,7 @@ func cmdExplore(args []string) int {
 	rep := exploreReport{PerFamily: map[string]int{}}
 	groups := c20.NewGroups(3)
 	strategies := []string{"recursive", "code", "markdown", "fixed", "chunker"}
-	for k := 0; k < *n; k++ {
+	for k := 0; k < *n && !c20.Tripped(); k++ {
 		s, fam := genInput(rng, k)
 		if *one != "" {
 			s, fam = string(fixed), "replay"
